@@ -674,12 +674,15 @@ class Ref:
             self.upd.clear()
             return
         self.upd.clear()
+        if self.abstain_next:
+            # after a competing start there is no claim about ANY later event (the flows that lost are still running:
+            # e.g. on a later non-triggering event every waiting flow records its step with modifier 0.9 and a later
+            # flow of equal priority then replaces an earlier one, see design_notes/C14.md)
+            self.abstain = True
+            return
         if k == "other":
             return
         if self.abstain:
-            return
-        if self.abstain_next:
-            self.abstain = True
             return
         if k == "user":
             if self.run and self.pending == ("user", ev["i"]):
@@ -1001,7 +1004,7 @@ def gen_cases(rng, tier):
         for _ in range(2):
             cases.append({"kind": "fn", "flows": flows, "history": g_reentry_history(sub3, flows), "seed": sub3.randrange(1 << 30)})
     sub4 = random.Random(rng.randrange(1 << 30))
-    for _ in range(40 if tier == "quick" else 800):
+    for _ in range(40 if tier == "quick" else 500):
         flows = g_competing_program(sub4, tier)
         for mode in ("follow", "leave"):
             cases.append({"kind": "fn", "flows": flows, "history": g_history(sub4, flows, mode), "seed": sub4.randrange(1 << 30)})
